@@ -278,6 +278,11 @@ struct Pol
 #if W_CANCONT == 1
 	static bool canContinueInvoking(const Payload & p) { return p.v != 2; }
 	static bool canContinueInvoking(const Key &, const Payload & p) { return p.v != 2; }
+#elif W_CANCONT == 3
+	// the policy takes the arguments the way a prototype with non-const reference parameters hands them over (W_ARG=2 worlds): the library's
+	// detection of the policy must probe it with the prototype's own argument kinds
+	static bool canContinueInvoking(Payload & p) { return p.v != 2; }
+	static bool canContinueInvoking(const Key &, Payload & p) { return p.v != 2; }
 #elif W_CANCONT == 2
 	// the same policy taking its arguments BY VALUE: it gets copies of the dispatch's arguments, which must stay intact for the next listener
 	static bool canContinueInvoking(Payload p) { return p.v != 2; }
